@@ -1,8 +1,8 @@
 #!/bin/sh
-# usage: tools/seeds.sh "<seeds>" "<props>"   runs ./check for every property x seed (quick tier) and prints one line each
+# usage: tools/seeds.sh "<seeds>" "<props>"   runs ./check for every property x seed (tier $TIER, default quick) and prints one line each
 cd "$(dirname "$0")/.." || exit 2
 for s in $1; do for p in $2; do
-  out=$(VERIF_SEED=$s ./check $p --tier quick 2>&1); rc=$?
+  out=$(VERIF_SEED=$s ./check $p --tier ${TIER:-quick} 2>&1); rc=$?
   echo "seed=$s $p rc=$rc $(echo "$out" | grep -E '^\[C[0-9]+\] (held|VIOLATED)|MACHINERY' | head -1)"
   [ $rc -ne 0 ] && echo "$out" | grep -E "VIOLATION|Error|error" | head -5
 done; done
